@@ -771,6 +771,10 @@ def main_check(modname: str, argv: List[str]) -> int:
     wall = time.time() - t0
     if not args.no_evidence:
         write_evidence(mod, args.tier, base_seed, merged, wall, wall_search, selfcheck, reported, known_printed, budget)
+    if merged["violations"]:
+        fv = min(merged["violations"], key=lambda v: v["spec"]["index"])
+        print(f"[{prop}] earliest violating run: {fv['spec']['config']}:{fv['spec']['index']} "
+              f"(of {budget.get(fv['spec']['config'], 0)} in that configuration)")
     print(
         f"[{prop}] runs={merged['evaluations']} nontrivial_distinct={len(merged['nontrivial'])} "
         f"interleavings={len(merged['sched'])} states={len(merged['states'])} "
